@@ -149,6 +149,7 @@ def explore_unit(res, run):
     while work:
         prefix = work.pop()
         ctx = Ctx(prefix)
+        n_before = len(res.obligations)
         try:
             run(ctx)
         except Infeasible:
@@ -171,6 +172,10 @@ def explore_unit(res, run):
             ob = Obligation(f"{res.unit}/structure", ctx.pc, z3.BoolVal(False), info={"mismatch": str(ex)})
             res.obligations.append(ob)
             collect(res, ctx)
+        rp = getattr(res, "replayer", None)
+        if rp is not None:
+            for ob in res.obligations[n_before:]:
+                ob.info.setdefault("replayer", rp)
         for i in range(len(prefix), len(ctx.taken)):
             work.append(ctx.taken[:i] + [not ctx.taken[i]])
         n += 1
